@@ -244,6 +244,10 @@ func (u *Unmarshaler) fillSliceFromString(fieldType reflect.Type, value reflect.
 	conv := reflect.MakeSlice(reflect.SliceOf(fieldType.Elem()), len(slice), cap(slice))
 
 	for i := 0; i < len(slice); i++ {
+		if slice[i] == nil {
+			continue
+		}
+
 		if err := u.fillSliceValue(conv, i, baseFieldKind, slice[i]); err != nil {
 			return err
 		}
@@ -282,7 +286,7 @@ func (u *Unmarshaler) fillSliceValue(slice reflect.Value, index int,
 			return nil
 		}
 
-		if ithVal.Kind() != reflect.TypeOf(value).Kind() {
+		if !reflect.TypeOf(value).AssignableTo(ithVal.Type()) {
 			return errTypeMismatch
 		}
 
